@@ -445,6 +445,18 @@ func runC13(r *Runner, g *Gen, tier string) string {
 		}
 		r.Do(codecOp("desccalls", cfg, t, "", v.Sexp(), A(via), A(enc[3:])), nontrivialVal(t, v), "desccalls."+via)
 	}
+	// registered JSON-any types are accepted types too: their descriptors walk what their codecs wrote
+	for i := 0; i < n/6; i++ {
+		d := 1 + g.r.Intn(4)
+		v := g.jobj(d)
+		if g.r.Bool() {
+			v = g.jarr(d)
+		}
+		enc := execOp(L(A("jrt"), A("enc"), v))
+		if strings.HasPrefix(enc, "ok x") {
+			r.Do(L(A("jrt"), A("desc"), v, A(enc[3:])), true, "jrt.desc")
+		}
+	}
 	// deep nesting: structs, slices of structs and string-keyed maps nested 30-40 and 70 levels
 	for _, depth := range []int{30, 31, 32, 33, 34, 35, 40, 70} {
 		for shape := 0; shape < 3; shape++ {
